@@ -61,7 +61,7 @@ def run(tier):
     nasm_lines = []
     for reg in R64:
         for val in (vals if full else rnd.sample(vals, min(len(vals), 40)) + [0, 1, 0x7fffffff, 0x80000000, 0xffffffff, 0x100000000, -1]):
-            for sp, txt in isa.spellings(val, rnd, all_=True):
+            for sp, txt in isa.spellings(val, rnd, all_=True, wrap=True):
                 line = "mov %s, %s" % (reg, txt)
                 nasm_lines.append(line)
                 for m in enc.COMBOS:
